@@ -21,7 +21,7 @@ fn free(c: &crate::CompoundFile<PS>) {
 #[kani::stub(std::io::copy, stub_io_copy)]
 #[kani::stub(crate::internal::path::cfb_uppercase_char, super::uptable::table_upper)]
 #[kani::unwind(140)]
-fn c14_readonly_methods() {
+fn c14_lookups() {
     let mut p = small_parts(&[1, EOC, EOC], 0, 100, 2, 64);
     let c = mk_comp(&mut p);
     let _ = c.version(); free(&c);
@@ -33,8 +33,21 @@ fn c14_readonly_methods() {
     assert!(c.is_stream("/o")); free(&c);
     assert!(c.is_storage("/d")); free(&c);
     assert!(!c.is_storage("/nope")); free(&c);
-    // iteration: between two next() calls no guard may be held, and read-only
-    // calls made while an iterator is alive must not find the lock taken
+    kani::cover!(true, "end");
+    std::mem::forget(c);
+}
+
+#[kani::proof]
+#[kani::stub(std::fmt::format, stub_format)]
+#[kani::stub(std::ffi::OsStr::to_str, stub_osstr_to_str)]
+#[kani::stub(std::io::copy, stub_io_copy)]
+#[kani::stub(crate::internal::path::cfb_uppercase_char, super::uptable::table_upper)]
+#[kani::unwind(140)]
+fn c14_iter_root() {
+    // between two next() calls no guard may be held, and read-only calls made
+    // while an iterator is alive must not find the lock taken
+    let mut p = small_parts(&[1, EOC, EOC], 0, 100, 2, 64);
+    let c = mk_comp(&mut p);
     let mut n = 0;
     let mut it = c.read_root_storage(); free(&c);
     while let Some(e) = it.next() {
@@ -43,14 +56,40 @@ fn c14_readonly_methods() {
         n += 1;
     }
     assert!(n == 3, "C01: root storage has three children");
-    n = 0;
+    kani::cover!(true, "end");
+    std::mem::forget(c);
+}
+
+#[kani::proof]
+#[kani::stub(std::fmt::format, stub_format)]
+#[kani::stub(std::ffi::OsStr::to_str, stub_osstr_to_str)]
+#[kani::stub(std::io::copy, stub_io_copy)]
+#[kani::stub(crate::internal::path::cfb_uppercase_char, super::uptable::table_upper)]
+#[kani::unwind(140)]
+fn c14_iter_walk() {
+    let mut p = small_parts(&[1, EOC, EOC], 0, 100, 2, 64);
+    let c = mk_comp(&mut p);
+    let mut n = 0;
     let mut it = c.walk(); free(&c);
     while let Some(e) = it.next() {
         free(&c);
-        let _ = c.entry(e.path()); free(&c);
+        let _ = c.exists(e.path()); free(&c);
         n += 1;
     }
     assert!(n == 4, "C01: walk visits the root and its three children");
+    kani::cover!(true, "end");
+    std::mem::forget(c);
+}
+
+#[kani::proof]
+#[kani::stub(std::fmt::format, stub_format)]
+#[kani::stub(std::ffi::OsStr::to_str, stub_osstr_to_str)]
+#[kani::stub(std::io::copy, stub_io_copy)]
+#[kani::stub(crate::internal::path::cfb_uppercase_char, super::uptable::table_upper)]
+#[kani::unwind(140)]
+fn c14_iter_storage() {
+    let mut p = small_parts(&[1, EOC, EOC], 0, 100, 2, 64);
+    let c = mk_comp(&mut p);
     let mut it = c.read_storage("/d").unwrap(); free(&c);
     assert!(it.next().is_none()); free(&c);
     let mut it = c.walk_storage("/d").unwrap(); free(&c);
